@@ -275,7 +275,7 @@ func c09Atoms() []c09Atom {
 	return []c09Atom{
 		{"unique: entry for NameA missing", del(nameIdx, "NameA")},
 		{"unique: dangling entry NameZ -> #zz", put(nameIdx, "NameZ", []byte("#zz"))},
-		{"unique: NameA points to #p2 (wrong target)", put(nameIdx, "NameA", []byte("#p2"))},
+		{"unique: NameA points to #p1x (wrong target)", put(nameIdx, "NameA", []byte("#p1x"))},
 		{"unique: stale entry NameY -> #p1", put(nameIdx, "NameY", []byte("#p1"))},
 		{"set: #p1 missing under role1", del(append(append([]string{}, roles...), "role1"), tv("#p1"))},
 		{"set: extra #p1 under role2", put(append(append([]string{}, roles...), "role2"), tv("#p1"), []byte{})},
@@ -292,28 +292,28 @@ func c09Atoms() []c09Atom {
 			return b.DeleteBucket([]byte("role1"))
 		}},
 		{"fk: back-reference #o1 -> #p1 missing", del([]string{"root", "orgs", "#o1", "members"}, tv("#p1"))},
-		{"fk: extra back-reference #o1 -> #p2", put([]string{"root", "orgs", "#o1", "members"}, tv("#p2"), []byte{})},
+		{"fk: extra back-reference #o1 -> #p1x", put([]string{"root", "orgs", "#o1", "members"}, tv("#p1x"), []byte{})},
 		{"fk: dangling back-reference #o1 -> #zz", put([]string{"root", "orgs", "#o1", "members"}, tv("#zz"), []byte{})},
-		{"fk: #p2.org references missing #zz (nullable)", put([]string{"root", "people", "#p2"}, "org", world.EncString("#zz"))},
+		{"fk: #p1x.org references missing #zz (nullable)", put([]string{"root", "people", "#p1x"}, "org", world.EncString("#zz"))},
 		{"fk: #t1.owner references missing #zz (non-nullable)", put([]string{"root", "pets", "#t1"}, "owner", world.EncString("#zz"))},
 		{"fk: #t1.owner null in non-nullable", put([]string{"root", "pets", "#t1"}, "owner", world.EncNil())},
 		{"link: place side of #p1-#l1 missing", del([]string{"root", "places", "#l1", "people"}, tv("#p1"))},
 		{"link: person side of #p1-#l1 missing", del([]string{"root", "people", "#p1", "places"}, tv("#l1"))},
-		{"link: #p2 linked to missing #zz", put([]string{"root", "people", "#p2", "places"}, tv("#zz"), []byte{})},
-		{"conflict: #p2.name overwritten with NameA", put([]string{"root", "people", "#p2"}, "name", world.EncString("NameA"))},
+		{"link: #p1x linked to missing #zz", put([]string{"root", "people", "#p1x", "places"}, tv("#zz"), []byte{})},
+		{"conflict: #p1x.name overwritten with NameA", put([]string{"root", "people", "#p1x"}, "name", world.EncString("NameA"))},
 		{"set: stray non-bucket key in the index", put(roles, "stray", []byte("x"))},
 		// the same corruption classes aimed at the other entity (position within a bucket matters to a scanning checker)
 		{"unique: entry for NameB missing", del(nameIdx, "NameB")},
-		{"set: #p2 missing under role1", del(append(append([]string{}, roles...), "role1"), tv("#p2"))},
-		{"set: extra #p2 under role2", put(append(append([]string{}, roles...), "role2"), tv("#p2"), []byte{})},
-		{"set: extra #p2 under role1 and dangling #zz under role2", func(tx *bbolt.Tx) error {
-			if err := put(append(append([]string{}, roles...), "role1"), tv("#p2"), []byte{})(tx); err != nil {
+		{"set: #p1x missing under role1", del(append(append([]string{}, roles...), "role1"), tv("#p1x"))},
+		{"set: extra #p1x under role2", put(append(append([]string{}, roles...), "role2"), tv("#p1x"), []byte{})},
+		{"set: extra #p1x under role1 and dangling #zz under role2", func(tx *bbolt.Tx) error {
+			if err := put(append(append([]string{}, roles...), "role1"), tv("#p1x"), []byte{})(tx); err != nil {
 				return err
 			}
 			return put(append(append([]string{}, roles...), "role2"), tv("#zz"), []byte{})(tx)
 		}},
-		{"fk: back-reference #o1 -> #p2 missing", del([]string{"root", "orgs", "#o1", "members"}, tv("#p2"))},
-		{"link: place side of #p2-#l1 missing", del([]string{"root", "places", "#l1", "people"}, tv("#p2"))},
+		{"fk: back-reference #o1 -> #p1x missing", del([]string{"root", "orgs", "#o1", "members"}, tv("#p1x"))},
+		{"link: place side of #p1x-#l1 missing", del([]string{"root", "places", "#l1", "people"}, tv("#p1x"))},
 		{"link: #p1 linked to missing #zz", put([]string{"root", "people", "#p1", "places"}, tv("#zz"), []byte{})},
 	}
 }
@@ -344,7 +344,7 @@ func c09Bases() []c09Base {
 			if err := person(k, ctx, "people", "#p1", "NameA", []string{"role1"}, &o1); err != nil {
 				return err
 			}
-			if err := person(k, ctx, "mgr", "#p2", "NameB", []string{"role1", "role2"}, nil); err != nil {
+			if err := person(k, ctx, "mgr", "#p1x", "NameB", []string{"role1", "role2"}, nil); err != nil {
 				return err
 			}
 			if err := k.lp.AddLinks(ctx.Tx(), "#p1", "#l1"); err != nil {
@@ -359,13 +359,13 @@ func c09Bases() []c09Base {
 			if err := person(k, ctx, "prof", "#p1", "NameA", []string{"role1", "role2"}, &o1); err != nil {
 				return err
 			}
-			if err := person(k, ctx, "people", "#p2", "NameB", []string{"role1"}, &o1); err != nil {
+			if err := person(k, ctx, "people", "#p1x", "NameB", []string{"role1"}, &o1); err != nil {
 				return err
 			}
-			if err := k.ll.AddLinks(ctx.Tx(), "#l1", "#p1", "#p2"); err != nil {
+			if err := k.ll.AddLinks(ctx.Tx(), "#l1", "#p1", "#p1x"); err != nil {
 				return err
 			}
-			return k.pets.Create(ctx, world.NewRec("pets", "#t1").With("label", "L").With("owner", "#p2"))
+			return k.pets.Create(ctx, world.NewRec("pets", "#t1").With("label", "L").With("owner", "#p1x"))
 		}},
 		{"sparse: p1{NameA} only (no org, no roles, no links, no pets)", func(k *kitchen, ctx boltz.MutateContext) error {
 			if err := common(k, ctx); err != nil {
